@@ -19,8 +19,8 @@ class C09 : public Check
 public:
     const char *id() { return "C09"; }
     const char *opName(int k) { return lName(k); }
-    int quickRuns() { return 4000; }
-    int quickSeconds() { return 70; }
+    int quickRuns() { return 12000; }
+    int quickSeconds() { return 90; }
     int thoroughSeconds() { return 900; }
     const char *rule()
     {
@@ -79,7 +79,7 @@ public:
         SongOpts so; so.maxTracks = (int)p.get("maxtracks", 2); so.maxEventsPerTrack = (int)p.get("maxev", 20); so.maxSeconds = 3.0; so.eotVariants = false; so.allowSysex = false;
         Song song = genSong(sr, so);
         // no pedals (they would legitimately hold notes across the jump), no CC111/110 from the generator
-        for(size_t tk = 0; tk < song.tracks.size(); ++tk) { STrack &t = song.tracks[tk]; for(size_t i = 0; i < t.ev.size(); ++i) if((t.ev[i].status & 0xF0) == 0xB0 && (t.ev[i].d1 == 64 || t.ev[i].d1 == 66)) t.ev[i].d1 = 7; t.hasEOT = true; t.trailing.clear(); t.eotTick = t.ev.empty() ? 0 : t.ev.back().tick; }
+        for(size_t tk = 0; tk < song.tracks.size(); ++tk) { STrack &t = song.tracks[tk]; for(size_t i = 0; i < t.ev.size(); ++i) if((t.ev[i].status & 0xF0) == 0xB0 && (t.ev[i].d1 == 64 || t.ev[i].d1 == 66)) t.ev[i].d1 = (uint8_t)(t.ev[i].d1 == 64 ? 75 : 76); /* controllers the generator never uses: event tags stay unique */ t.hasEOT = true; t.trailing.clear(); t.eotTick = t.ev.empty() ? 0 : t.ev.back().tick; }
         uint32_t maxTick = 0; for(size_t tk = 0; tk < song.tracks.size(); ++tk) maxTick = std::max(maxTick, song.tracks[tk].eotTick);
         if(maxTick < 8) { maxTick = 8 + (uint32_t)song.division; song.tracks[0].eotTick = maxTick; }
         // ---- loop markers
